@@ -720,7 +720,15 @@ func (m *Machine) visit(fr *frame, instr ssa.Instruction) continuation {
 			}
 			return kNext
 		}
+		if key := fr.get(instr.Key); symKey(key) {
+			m.symMapSet(instr.Map.Type().Underlying().(*types.Map).Key(), mp, key, copyVal(fr.get(instr.Value)))
+			return kNext
+		}
 		k := m.mapKey(fr.get(instr.Key))
+		if len(mp.skeys) > 0 {
+			m.symMapSet(instr.Map.Type().Underlying().(*types.Map).Key(), mp, k, copyVal(fr.get(instr.Value)))
+			return kNext
+		}
 		mp.set(k, copyVal(fr.get(instr.Value)))
 
 	case *ssa.TypeAssert:
@@ -759,6 +767,61 @@ func (m *Machine) findHashKey(mp *mapv, hk *hashv) int {
 	return -1
 }
 
+// symKey: the key is a string (possibly inside an interface) with symbolic bytes.
+func symKey(k value) bool {
+	switch k := k.(type) {
+	case *symstr:
+		return true
+	case iface:
+		_, ok := k.v.(*symstr)
+		return ok
+	}
+	return false
+}
+
+// symMapFind decides equality of key with the stored keys one by one.
+func (m *Machine) symMapFind(kt types.Type, mp *mapv, key value) (concrete value, sidx int, found bool) {
+	for _, k := range mp.keys {
+		if _, ok := mp.m[k]; !ok {
+			continue
+		}
+		if m.truth(m.equals(kt, k, key), "map-key-equal") {
+			return k, -1, true
+		}
+	}
+	for i, e := range mp.skeys {
+		if m.truth(m.equals(kt, e.k, key), "map-key-equal") {
+			return nil, i, true
+		}
+	}
+	return nil, -1, false
+}
+
+func (m *Machine) symMapGet(kt types.Type, mp *mapv, key value) (value, bool) {
+	ck, si, found := m.symMapFind(kt, mp, key)
+	if !found {
+		return nil, false
+	}
+	if si >= 0 {
+		return mp.skeys[si].v, true
+	}
+	return mp.m[ck], true
+}
+
+func (m *Machine) symMapSet(kt types.Type, mp *mapv, key, val value) {
+	ck, si, found := m.symMapFind(kt, mp, key)
+	switch {
+	case found && si >= 0:
+		mp.skeys[si].v = val
+	case found:
+		mp.m[ck] = val
+	case symKey(key):
+		mp.skeys = append(mp.skeys, symEntry{key, val})
+	default:
+		mp.set(key, val)
+	}
+}
+
 // mapKey makes a key concrete and comparable.
 func (m *Machine) mapKey(k value) value {
 	k = m.concretizeDeep(k)
@@ -780,6 +843,8 @@ func (m *Machine) lookup(instr *ssa.Lookup, x, idx value) value {
 					v, ok = x.hkeys[i].v, true
 				}
 			}
+		} else if x != nil && (symKey(idx) || len(x.skeys) > 0) {
+			v, ok = m.symMapGet(instr.X.Type().Underlying().(*types.Map).Key(), x, idx)
 		} else {
 			if x != nil && len(x.hkeys) > 0 {
 				abort("map mixes abstract and concrete hash keys")
